@@ -239,10 +239,12 @@ func checkNoWriteAfterBuilder(r *Report, rule string) {
 	}
 	r.floor(rule, n, 3, "Sign methods with a key site")
 	// helpers: Sign then MarshalCBOR on a local message
+	entry := map[*ssa.Function]bool{}
 	for _, fn := range P.signEntryPoints() {
-		if fn.Signature.Recv() != nil || fn.Signature.Results().Len() != 2 || !isByteSlice(fn.Signature.Results().At(0).Type()) {
-			continue
-		}
+		entry[fn] = true
+	}
+	var judge func(top, fn *ssa.Function, depth int)
+	judge = func(top, fn *ssa.Function, depth int) {
 		var signCall, encCall ssa.CallInstruction
 		for _, ci := range callsIn(fn, nil) {
 			c := staticCallee(ci)
@@ -253,21 +255,41 @@ func checkNoWriteAfterBuilder(r *Report, rule string) {
 			case "Sign":
 				signCall = ci
 			case "MarshalCBOR":
-				encCall = ci
+				if P.isStructureType(deref(c.Signature.Recv().Type())) {
+					encCall = ci
+				}
 			}
 		}
-		if signCall == nil || encCall == nil {
-			continue // Countersign0 / SignHashEnvelope (delegates to Sign1)
+		switch {
+		case signCall != nil && encCall != nil:
+		case encCall != nil:
+			// the message is encoded here but was signed somewhere else
+			r.ob(rule, shortFn(top)+":sign-then-encode", fn, encCall, "the message that was signed is the one that is encoded, unmodified in between").fail("the helper encodes a message value that is not the object its Sign method was called on (the signing happened on another copy: what the signing gate wrote there is not emitted)")
+			return
+		default:
+			// neither: the bytes come from a helper this one delegates to
+			if depth >= 2 {
+				return
+			}
+			for _, x := range P.factsOf(fn).exits {
+				if x.kind == exitFailure || !x.delegated {
+					continue
+				}
+				if c := delegCall(x.errTerm); c != nil {
+					if h := P.calleeOfTerm(c); h != nil && !entry[h] && h.Signature.Recv() == nil {
+						judge(top, h, depth+1)
+					}
+				}
+			}
+			return
 		}
-		o := r.ob(rule, shortFn(fn)+":sign-then-encode", fn, encCall, "the message that was signed is the one that is encoded, unmodified in between")
+		o := r.ob(rule, shortFn(top)+":sign-then-encode", fn, encCall, "the message that was signed is the one that is encoded, unmodified in between")
 		sameRecv := P.terms.of(signCall.Common().Args[0]).eq(P.terms.of(encCall.Common().Args[0]))
 		bad := ""
-		between := false
 		for _, in := range reachableAfter(signCall) {
 			if in == ssa.Instruction(encCall) {
 				break
 			}
-			between = true
 			if len(writesOf(P, in)) > 0 {
 				bad = "write between Sign and MarshalCBOR at " + P.instrPos(in)
 			}
@@ -278,8 +300,13 @@ func checkNoWriteAfterBuilder(r *Report, rule string) {
 				}
 			}
 		}
-		_ = between
 		o.check(sameRecv && bad == "", "same local message, no write in between", fmt.Sprintf("same receiver: %v; %s", sameRecv, bad))
+	}
+	for _, fn := range P.signEntryPoints() {
+		if fn.Signature.Recv() != nil || fn.Signature.Results().Len() != 2 || !isByteSlice(fn.Signature.Results().At(0).Type()) {
+			continue
+		}
+		judge(fn, fn, 0)
 	}
 }
 
